@@ -19,6 +19,7 @@ theorem inv_step (s : State) (op : Op) (h : Inv s) : Inv (step s op) := by
   | waiter =>
     cases hp : s.wpc <;> simp only [step, hp] <;> (try split) <;> constructor <;>
       simp_all [cond, covered, wakeBy] <;> omega
+  | restart => simp only [step]; constructor <;> simp_all
   | onSent k sn =>
     simp only [step]; split <;> constructor <;> simp_all [cond, covered] <;> omega
   | rcvdLoad =>
